@@ -35,6 +35,8 @@ Refresh(I, G, G2) == [i \in DOMAIN I |->
 NewG(s, e) ==
   CASE e.op = "add"          -> PAdd(s.G, e.g, e.t)
     [] e.op = "addN"         -> PAddQuads(s.G, SeqToSet(e.qs))
+    \* a bulk add through the view of ONE graph: that graph takes the quads that name it and drops the others (no other graph changes, none is made)
+    [] e.op = "addN_view"    -> LET T == {Tup3(q) : q \in {x \in SeqToSet(e.qs) : x[4] = e.g}} IN IF T = {} THEN s.G ELSE PAddAll(s.G, e.g, T)
     [] e.op = "remove"       -> PRemove(s.G, e.g, e.pat)
     [] e.op = "set"          -> PSet(s.G, e.g, e.t)
     [] e.op = "iadd"         -> PAddAll(s.G, e.g, GGet(s.G, e.h))
@@ -58,7 +60,7 @@ NewIts(s, e, G2) ==
     [] e.op = "next" /\ e.res.k = "stop" -> [s.its EXCEPT ![e.it].live = FALSE]
     [] OTHER -> Refresh(s.its, s.G, G2)
 
-KnownOps == {"add", "addN", "remove", "set", "iadd", "isub", "iadd_ts", "isub_ts", "graph", "remove_graph",
+KnownOps == {"add", "addN", "addN_view", "remove", "set", "iadd", "isub", "iadd_ts", "isub_ts", "graph", "remove_graph",
              "binop", "open", "next", "read", "init"}
 
 (* ---------------- judging one event ------------------------------------- *)
